@@ -128,6 +128,27 @@ def h_volume(ctx, name, d, kinds):
               replay=(replay_generic, lambda m: dict(copula=name, kind="volume", a=[_mv(m, x) for x in a], b=[_mv(m, x) for x in b])))
 
 
+def replay_vertex(sc):
+    """real copulas on floats: rectangles (a, inf] x ... x (a, inf] (all upper ends +inf) must not have a negative volume"""
+    out = []
+    for name in ("indep", "dep", "clayton"):
+        cop = make_concrete(name, {})
+        for d in (2, 3):
+            v = LCM.volume(_fc(cop), [1.0] * d, [INF] * d)
+            if not (v >= 0):
+                out.append(f"{cop}: volume of (1, inf]^{d} = {v} (F(inf, ..., inf) = {_fc(cop)([INF] * d)})")
+    return bool(out), "; ".join(out[:3]) if out else "rectangles with the all-infinite vertex have non-negative volume"
+
+
+def h_vertex_at_infinity(ctx, name, d):
+    """rectangles whose upper ends are all +inf: the only corner where a Levy copula may be infinite is (inf, ..., inf) and it is +inf there for
+    the copulas offered (the volume of (a, inf]^d is then +inf, the finite corner values being real); a finite value there gives these
+    rectangles the negative volume -(sum of the finite corners)"""
+    cop = make(ctx, name)
+    v = cop(np.array([INF] * d))
+    ctx.prove(f"C11.{name}.infinite_at_the_all_infinite_vertex.{d}d", (not V.is_sym(v)) and v == INF, info={"value": repr(v)}, replay=(replay_vertex, lambda m: {}))
+
+
 # ---- Clayton: stated mixed derivative, conditional distribution and its inverse (theta = 1: the copula is a rational function)
 
 
@@ -277,6 +298,9 @@ def harnesses(tier):
             for i in range(d):
                 for sg in (1, -1):
                     hs.append(Harness(f"margin.{name}.{d}.{i}.{sg}", h_margin, {"name": name, "d": d, "i": i, "sign": sg}, max_paths=2000, timeout_ms=30000))
+    for name in ("indep", "dep"):
+        for d in (2, 3):
+            hs.append(Harness(f"vertex.{name}.{d}", h_vertex_at_infinity, {"name": name, "d": d}, max_paths=20))
     for name in ("indep", "dep"):
         for d in (2, 3):
             kk = ("ff", "fi")  # rectangles (a, b] of (-inf, inf]^d: finite lower ends (a lower end -inf is a limit, not a point of the domain)
